@@ -11,7 +11,6 @@ from __future__ import annotations
 import functools
 import numbers
 import typing
-import weakref
 from abc import abstractmethod
 from collections.abc import Sequence
 
@@ -297,8 +296,6 @@ class Cell(AbstractCell):
             tuple(Cell(t) for t in se_types) for se_types in self._sub_entity_celltypes[:-1]
         ]
         self._sub_entity_types = [tuple(set(i)) for i in self._sub_entities]
-        self._sub_entities.append((weakref.proxy(self),))
-        self._sub_entity_types.append((weakref.proxy(self),))
 
         if not isinstance(self._tdim, numbers.Integral):
             raise ValueError("Expecting integer topological_dimension.")
@@ -331,6 +328,9 @@ class Cell(AbstractCell):
         """Get the sub-entities of the given dimension."""
         if dim < 0:
             return ()
+        if dim == self._tdim:
+            # The cell itself (not stored, to avoid a reference cycle)
+            return (self,)
         try:
             return self._sub_entities[dim]
         except IndexError:
@@ -340,6 +340,8 @@ class Cell(AbstractCell):
         """Get the unique sub-entity types of the given dimension."""
         if dim < 0:
             return ()
+        if dim == self._tdim:
+            return (self,)
         try:
             return self._sub_entity_types[dim]
         except IndexError:
